@@ -41,6 +41,8 @@ type Program struct {
 	Tags         string
 
 	globals *GlobalModel
+
+	moduleFuncs []*ssa.Function // memo of ModuleFuncs
 }
 
 func repoDir() string {
